@@ -206,6 +206,30 @@ Definition spec_custom_row (en : list param) (row : list Z) : assignment :=
                 (p_key p, spec_custom_value p (sum_nat (map pwidth (firstn k en))) row))
       (seq 0 (length en)).
 
+(* ------------------------------------------------------------------------------------ source configuration
+   What the translator (translator/c05.py) reads from the declarative parts of pyxel/observation/misc.py and
+   observation.py; Gen_C05.src_cfg is regenerated from the source on every run and the model below is evaluated --
+   and the theorems of Properties/C05.v are stated -- for that value. *)
+Record cfg := mkCfg {
+  (* _get_short_name_with_model: a key that does not have five dotted components keeps its full key
+     (false: the 5-tuple unpacking raises ValueError) *)
+  cf_name_fallback_full : bool;
+  (* _get_short_dimension_names_new: names that are still shared after the <model>.<argument> fallback are
+     replaced by the full key (false: they stay shared) *)
+  cf_name_stage3 : bool;
+  (* _add_custom_parameters: every vector-valued parameter is attached on its own dim_<n> (false: all on the
+     anonymous dimension dim_0, so that different lengths cannot be merged) *)
+  cf_custom_dims_distinct : bool;
+  (* CustomMode.build: column_range=None means the whole table (false: DataFrame.loc[:, None] -> KeyError) *)
+  cf_custom_range_optional : bool;
+  (* convert_custom_data (dask path) reads the selected columns by position (false: by the labels 0,1,..) *)
+  cf_dask_custom_positional : bool
+}.
+
+(* the tree the framework was built on (round 1) and the tree with the round-2 repairs *)
+Definition cfg_round1 : cfg := mkCfg false false false false false.
+Definition cfg_repaired : cfg := mkCfg true true true true true.
+
 (* ------------------------------------------------------------------------------------ dimension names *)
 
 Fixpoint split_dot_aux (s : string) (cur : string) : list string :=
@@ -216,28 +240,17 @@ Fixpoint split_dot_aux (s : string) (cur : string) : list string :=
   end.
 Definition split_dot (s : string) : list string := split_dot_aux s "".
 
-Inductive dname := Short (s : string) | WithModel (m p : string).
-
-Definition dname_eqb (a b : dname) : bool :=
-  match a, b with
-  | Short x, Short y => String.eqb x y
-  | WithModel m p, WithModel m' p' => String.eqb m m' && String.eqb p p'
-  | _, _ => false
-  end.
-
-Definition render (d : dname) : string :=
-  match d with Short s => s | WithModel m p => m ++ "." ++ p end.
-
 (* short() with the readout-time special case *)
 Definition short_of (key : string) : string :=
   if String.eqb key "observation.readout.times" then "readout_time"
   else last (split_dot key) "".
 
-(* _get_short_name_with_model: exactly five components, else ValueError (None) *)
-Definition with_model (key : string) : option dname :=
+(* _get_short_name_with_model: "<model>.<argument>" of a key with exactly five components; any other key:
+   the key itself (repaired) or ValueError (None) *)
+Definition with_model (c : cfg) (key : string) : option string :=
   match split_dot key with
-  | [_; _; m; _; p] => Some (WithModel m p)
-  | _ => None
+  | [_; _; m; _; p] => Some (m ++ "." ++ p)
+  | _ => if cf_name_fallback_full c then Some key else None
   end.
 
 Fixpoint count_str (s : string) (l : list string) : nat :=
@@ -250,12 +263,23 @@ Fixpoint all_some_pairs {A B} (l : list (A * option B)) : option (list (A * B)) 
   | (a, Some b) :: t => option_map (cons (a, b)) (all_some_pairs t)
   end.
 
+(* first two stages of _get_short_dimension_names_new: the last component; if that is shared, the
+   fallback of _get_short_name_with_model *)
+Definition name2 (c : cfg) (shorts : list string) (k : string) : option string :=
+  if Nat.ltb 1 (count_str (short_of k) shorts) then with_model c k else Some (short_of k).
+
+Definition dim_names2 (c : cfg) (keys : list string) : option (list (string * string)) :=
+  all_some_pairs (map (fun k => (k, name2 c (map short_of keys) k)) keys).
+
+(* third stage (repaired code): a name that is still shared is replaced by the full key *)
+Definition stage3 (c : cfg) (m : list (string * string)) : list (string * string) :=
+  if cf_name_stage3 c
+  then map (fun kn => (fst kn, if Nat.ltb 1 (count_str (snd kn) (map snd m)) then fst kn else snd kn)) m
+  else m.
+
 (* _get_short_dimension_names_new over the keys of `types` (a dict: distinct keys, in order) *)
-Definition dim_names (keys : list string) : option (list (string * dname)) :=
-  let shorts := map short_of keys in
-  all_some_pairs
-    (map (fun k => if Nat.ltb 1 (count_str (short_of k) shorts) then (k, with_model k)
-                   else (k, Some (Short (short_of k)))) keys).
+Definition dim_names (c : cfg) (keys : list string) : option (list (string * string)) :=
+  option_map (stage3 c) (dim_names2 c keys).
 
 (* ------------------------------------------------------------------------------------ labels, result *)
 
@@ -294,8 +318,8 @@ Definition set_eqb {A} (eqb : A -> A -> bool) (a b : list A) : bool := subset eq
 Definition label_eqb (a b : label) : bool := set_eqb item_eqb a b.
 Definition entry_eqb (a b : label * Z) : bool := label_eqb (fst a) (fst b) && Z.eqb (snd a) (snd b).
 
-Definition name_of (names : list (string * dname)) (k : string) : string :=
-  match dict_get k names with Some d => render d | None => "?" end.
+Definition name_of (names : list (string * string)) (k : string) : string :=
+  match dict_get k names with Some d => d | None => "?" end.
 Definition type_of (types : list (string * ptype)) (k : string) : ptype :=
   match dict_get k types with Some t => t | None => Simple end.
 
@@ -378,13 +402,20 @@ Definition select_cols (lo hi : nat) (row : list Z) : list Z := firstn (hi + 1 -
 Definition default_of (slots : assignment) (k : string) : pval :=
   match dict_get k slots with Some v => v | None => Sc 0 end.
 
+(* CustomMode.build: the table after the column selection; None = KeyError *)
+Definition custom_table (cf : cfg) (table : list (list Z)) (range : option (nat * nat)) : option (list (list Z)) :=
+  match range with
+  | Some (lo, hi) => Some (map (select_cols lo hi) table)
+  | None => if cf_custom_range_optional cf then Some table else None
+  end.
+
 Record outcome := mkOutcome {
   oc_runs : list (list pval);          (* per executed run, in order: the values of all slots *)
   oc_result : list (label * Z)         (* the assembled result: labels -> data *)
 }.
 
 (* the observation as coded (sequential, non-dask path).  None = an exception is raised. *)
-Definition observe (m : omode) (ps : list param) (slots : assignment) (table : list (list Z))
+Definition observe (cf : cfg) (m : omode) (ps : list param) (slots : assignment) (table : list (list Z))
            (range : option (nat * nat)) : option outcome :=
   let en := enabled ps in
   let keys := unique (map p_key en) in
@@ -392,7 +423,7 @@ Definition observe (m : omode) (ps : list param) (slots : assignment) (table : l
   match m with
   | Product =>
       if existsb has_ph en then None else
-      match dim_names keys with
+      match dim_names cf keys with
       | None => None
       | Some names =>
           let runs := product_runs ps in
@@ -405,28 +436,27 @@ Definition observe (m : omode) (ps : list param) (slots : assignment) (table : l
       end
   | Sequential =>
       if existsb has_ph en then None else
-      match dim_names keys with
+      match dim_names cf keys with
       | None => None
       | Some names =>
           let runs := sequential_runs (default_of slots) ps in
-          if all_eq_nat (flat_map (fun r => vec_lens (r_params r)) runs)
+          if cf_custom_dims_distinct cf || all_eq_nat (flat_map (fun r => vec_lens (r_params r)) runs)
           then option_map (mkOutcome (map (fun r => received slots (r_params r)) runs))
                  (assemble (map (fun r => (custom_label names (hd 0 (r_index r)) (r_params r),
                                            data_of slots (r_params r))) runs))
           else None
       end
   | Custom =>
-      match range with
+      match custom_table cf table range with
       | None => None                                         (* .loc[:, None] -> KeyError *)
-      | Some (lo, hi) =>
-          let rows := map (select_cols lo hi) table in
+      | Some rows =>
           match custom_runs (length (hd [] rows)) rows ps with
           | None => None
           | Some runs =>
-              match dim_names keys with
+              match dim_names cf keys with
               | None => None
               | Some names =>
-                  if all_eq_nat (flat_map (fun r => vec_lens (r_params r)) runs)
+                  if cf_custom_dims_distinct cf || all_eq_nat (flat_map (fun r => vec_lens (r_params r)) runs)
                   then option_map (mkOutcome (map (fun r => received slots (r_params r)) runs))
                          (assemble (map (fun r => (custom_label names (hd 0 (r_index r)) (r_params r),
                                                    data_of slots (r_params r))) runs))
@@ -473,7 +503,7 @@ Definition dask_steps (en : list param) : list (string * list pval) :=
   dict_of (map (fun p => (p_key p, piter p)) en).
 
 (* the coordinates of a cell of the product array: every parameter under its dimension name *)
-Definition dask_product_label (names : list (string * dname)) (params : assignment) : label :=
+Definition dask_product_label (names : list (string * string)) (params : assignment) : label :=
   map (fun kv => (name_of names (fst kv), LV (snd kv))) params.
 
 (* ProductMode.create_params, generic in the order `norm` pandas gives each level:
@@ -506,7 +536,7 @@ Fixpoint dask_custom_row (steps : list (string * list pval)) (row : list Z) (i :
   end.
 
 (* id coordinate + one coordinate per parameter (sequential and custom mode) *)
-Definition dask_id_label (names : list (string * dname)) (index : nat) (params : assignment) : label :=
+Definition dask_id_label (names : list (string * string)) (index : nat) (params : assignment) : label :=
   ("id", LI index) :: map (fun kv => (name_of names (fst kv), LV (snd kv))) params.
 
 Definition dask_outcome (slots : assignment) (cells : list (label * assignment)) : option outcome :=
@@ -515,7 +545,7 @@ Definition dask_outcome (slots : assignment) (cells : list (label * assignment))
 
 (* the observation as coded, dask path.  None = an exception is raised.  oc_runs lists the cells (the
    order of execution is dask's business and is not compared). *)
-Definition observe_dask (m : omode) (ps : list param) (slots : assignment) (table : list (list Z))
+Definition observe_dask (cf : cfg) (m : omode) (ps : list param) (slots : assignment) (table : list (list Z))
            (range : option (nat * nat)) : option outcome :=
   let en := enabled ps in
   let keys := unique (map p_key en) in
@@ -523,7 +553,7 @@ Definition observe_dask (m : omode) (ps : list param) (slots : assignment) (tabl
   match m with
   | Product =>
       if existsb has_ph en then None else
-      match dim_names keys with
+      match dim_names cf keys with
       | None => None
       | Some names =>
           if str_nodup (map (name_of names) keys ++ reserved_dims)
@@ -534,7 +564,7 @@ Definition observe_dask (m : omode) (ps : list param) (slots : assignment) (tabl
       end
   | Sequential =>
       if existsb has_ph en then None else
-      match dim_names keys with
+      match dim_names cf keys with
       | None => None
       | Some names =>
           if str_nodup (map (name_of names) keys)                 (* non-unique DataFrame columns *)
@@ -543,18 +573,18 @@ Definition observe_dask (m : omode) (ps : list param) (slots : assignment) (tabl
           else None
       end
   | Custom =>
-      match range with
+      match custom_table cf table range with
       | None => None
-      | Some (lo, hi) =>
-          let rows := map (select_cols lo hi) table in
+      | Some rows =>
+          let lo := match range with Some (lo, _) => lo | None => 0 end in
           let ncols := length (hd [] rows) in
           let c := count_ph en in
           if Nat.eqb c 0 || negb (Nat.eqb c ncols) then None else
-          match dim_names keys with
+          match dim_names cf keys with
           | None => None
           | Some names =>
               if str_nodup (map (name_of names) keys)
-                 && Nat.eqb lo 0                                   (* custom_data[0]: KeyError if lo > 0 *)
+                 && (cf_dask_custom_positional cf || Nat.eqb lo 0) (* custom_data[0]: KeyError if lo > 0 *)
                  && Nat.leb (sum_nat (map (fun s => length (snd s)) steps)) ncols   (* the asserts *)
               then dask_outcome slots (map (fun nr => (dask_id_label names (fst nr)
                                                           (dask_custom_row steps (snd nr) 0),
@@ -600,7 +630,7 @@ Definition spec_accepts (m : omode) (en : list param) (ncols : nat) : bool :=
 
 (* the label the spec expects for a run: every enabled parameter under its own name with the value
    it had (vector-valued product parameters also by position) *)
-Definition spec_label (m : omode) (names : list (string * dname)) (en : list param)
+Definition spec_label (m : omode) (names : list (string * string)) (en : list param)
            (index : list nat) (params : assignment) : label :=
   match m with
   | Product =>
@@ -615,7 +645,7 @@ Definition spec_label (m : omode) (names : list (string * dname)) (en : list par
 
 (* dask path: a cell of the product array is labelled by the values themselves (a vector-valued
    parameter by its tuple); sequential/custom cells by id and every parameter's value *)
-Definition spec_label_dask (m : omode) (names : list (string * dname)) (en : list param)
+Definition spec_label_dask (m : omode) (names : list (string * string)) (en : list param)
            (index : list nat) (params : assignment) : label :=
   match m with
   | Product =>
@@ -667,7 +697,7 @@ Definition case_rows (c : case) : list (list Z) :=
 Fixpoint labels_nodup (ls : list label) : bool :=
   match ls with [] => true | l :: t => negb (existsb (label_eqb l) t) && labels_nodup t end.
 
-Definition spec_holds (c : case) : bool :=
+Definition spec_holds (cf : cfg) (c : case) : bool :=
   let en := enabled (c_params c) in
   let rows := case_rows c in
   let o := c_obs c in
@@ -679,7 +709,7 @@ Definition spec_holds (c : case) : bool :=
     (if c_dask c then runs_dask_ok (o_runs o) (map (fun s => received (c_slots c) (snd s)) space)
      else runs_eqb (o_runs o) (map (fun s => received (c_slots c) (snd s)) space)) &&
     (* every requested run is found under its own label and holds its own data; nothing else is stored *)
-    match dim_names (unique (map p_key en)) with
+    match dim_names cf (unique (map p_key en)) with
     | None => false
     | Some names =>
         let want := map (fun s => ((if c_dask c then spec_label_dask else spec_label)
@@ -703,8 +733,8 @@ Definition outcome_agree (dask : bool) (m : option outcome) (o : observed) : boo
                && Nat.eqb (length (o_result o)) (length (oc_result oc))
   end.
 
-Definition model_of (c : case) : option outcome :=
-  (if c_dask c then observe_dask else observe) (c_mode c) (c_params c) (c_slots c) (c_table c) (c_range c).
+Definition model_of (cf : cfg) (c : case) : option outcome :=
+  (if c_dask c then observe_dask else observe) cf (c_mode c) (c_params c) (c_slots c) (c_table c) (c_range c).
 
 Fixpoint indices_where {A} (f : A -> bool) (l : list A) (i : Z) : list Z :=
   match l with
@@ -712,7 +742,7 @@ Fixpoint indices_where {A} (f : A -> bool) (l : list A) (i : Z) : list Z :=
   | a :: t => if f a then i :: indices_where f t (i + 1)%Z else indices_where f t (i + 1)%Z
   end.
 
-Definition mismatches (cs : list case) : list Z :=
-  indices_where (fun c => negb (outcome_agree (c_dask c) (model_of c) (c_obs c))) cs 0%Z.
-Definition violations (cs : list case) : list Z :=
-  indices_where (fun c => negb (spec_holds c)) cs 0%Z.
+Definition mismatches (cf : cfg) (cs : list case) : list Z :=
+  indices_where (fun c => negb (outcome_agree (c_dask c) (model_of cf c) (c_obs c))) cs 0%Z.
+Definition violations (cf : cfg) (cs : list case) : list Z :=
+  indices_where (fun c => negb (spec_holds cf c)) cs 0%Z.
